@@ -44,7 +44,9 @@ def attr_text(a, ns, n):
         name, val = STMT[ns]
         val = val % n if "%d" in val else val
     else:
-        name, val = ("class" if a["f"] == "bare" else "bar"), "v%d" % n
+        # (an ordinary data-<prefix>-<name> attribute is spelled like a statement: the same attribute name means a statement
+        # where the prefix is bound to a template namespace and nothing where it is not)
+        name, val = ("class" if a["f"] == "bare" else ("define" if a["f"] == "data" else "bar")), "v%d" % n
     if a["f"] == "pre":
         return '%s:%s="%s"' % (a["p"], name, val)
     if a["f"] == "bare":
@@ -112,6 +114,20 @@ RndOpen ==
         /\\ depth' = IF sc \\/ (un /\\ depth > 0) THEN depth ELSE depth + 1
   /\\ UNCHANGED fin
 SimSpec == Init /\\ [][RndOpen \\/ AddClose \\/ Finish]_vars
+\\* biased draws: one prefix re-bound from element to element (template namespace here, foreign there), the elements
+\\* carrying an attribute of that prefix in data- or prefixed form -- the same attribute NAME means different things
+RndOpen2 ==
+  /\\ ~fin /\\ Len(doc) < MaxItems /\\ depth < MaxDepth
+  /\\ \\E q \\in {Pick({"t", "foo"})} :
+     \\E ds \\in {IF Pick(1..4) = 1 THEN {} ELSE {[p |-> q, u |-> Pick({"TAL", "TAL", "FOO", "XHTML", "METAL"})]}},
+         a1 \\in {IF Pick(1..3) = 1 THEN [f |-> "pre", p |-> q] ELSE [f |-> "data", p |-> q]},
+         a2 \\in {Pick(Attr \\cup {[f |-> "none"]})}, sc \\in {Pick(BOOLEAN)}, un \\in {Pick({FALSE, FALSE, TRUE})}, ep \\in {Pick({"", "", q})},
+         dfirst \\in {Pick(BOOLEAN)} :
+        /\\ doc' = Append(doc, [k |-> "open", ds |-> ds, as |-> SelectSeq(<<a1, a2>>, LAMBDA a : a.f # "none"),
+                                ep |-> ep, dfirst |-> dfirst, sc |-> sc /\\ ~(un /\\ depth > 0), un |-> un /\\ depth > 0])
+        /\\ depth' = IF sc \\/ (un /\\ depth > 0) THEN depth ELSE depth + 1
+  /\\ UNCHANGED fin
+SimSpec2 == Init /\\ [][RndOpen2 \\/ AddClose \\/ Finish]_vars
 Emit == (fin /\\ WellBound) => PrintT(ToJson([doc |-> doc, info |-> [n \\in 1..Len(doc) |-> Info(n)]]))
 ====
 """
@@ -140,15 +156,17 @@ def _chunk(recs, data_opt):
 
 
 def ns_part(ctx, quick):
-    for data_opt in (False, True):
+    for data_opt, spec_name in ((False, "SimSpec"), (True, "SimSpec"), (True, "SimSpec2"), (False, "SimSpec2")) if quick else ((False, "Spec"), (True, "Spec"),
+                                                                                                                  (True, "SimSpec2")):
         wd = workdir("ns")
         try:
             open(os.path.join(wd, "MCNs.tla"), "w").write(MC)
             open(os.path.join(wd, "MCNs.cfg"), "w").write(
                 "SPECIFICATION %s\nCONSTANTS\n MaxItems = %d\n MaxDepth = 2\n DataOption = %s\nINVARIANT NoLeak\nINVARIANT ForeignPreserved\nINVARIANT Emit\n"
-                % ("SimSpec" if quick else "Spec", 5 if quick else 4, "TRUE" if data_opt else "FALSE"))
-            if quick:
-                r = run_tlc("MCNs", "MCNs.cfg", wd, workers=1, timeout=1800, simulate="num=40000", depth=10, seed=ctx.seed, java_opts=["-Xmx6g"])
+                % (spec_name, 5 if spec_name != "Spec" else 4, "TRUE" if data_opt else "FALSE"))
+            if spec_name != "Spec":
+                r = run_tlc("MCNs", "MCNs.cfg", wd, workers=1, timeout=1800, simulate="num=%d" % (40000 if spec_name == "SimSpec" else 12000),
+                            depth=10, seed=ctx.seed, java_opts=["-Xmx6g"])
             else:
                 r = run_tlc("MCNs", "MCNs.cfg", wd, workers=1, timeout=7200, java_opts=["-Xmx8g"])
         finally:
